@@ -151,3 +151,19 @@ Definition jsxent_ok (c : bytes * Z * list Z) : bool :=
   | x => st =? status_of x
   end.
 Definition check_jsxent := mismatches jsxent_ok.
+
+From V Require Import C16.CssLex.
+(* css_lexer consumers on a fresh lexer: (which, text, status, result rune / kind, name, current, codePoint, Range.Len)
+   which: 0 consumeEscape, 1 consumeString, 2 consumeURL, 3 consumeName *)
+Definition lx_eqb (l : lx) (c p r : Z) : bool := (cur l =? c) && (cp l =? p) && (rlen l =? r).
+Definition csslex_ok (c : Z * bytes * Z * Z * bytes * Z * Z * Z) : bool :=
+  let '(which, t, st, v, name, c1, p1, r1) := c in
+  if which =? 0 then
+    match run_escape t with Ok (r, l) => (st =? 0) && (v =? r) && lx_eqb l c1 p1 r1 | x => st =? status_of x end
+  else if which =? 1 then
+    match run_string t with Ok (k, l) => (st =? 0) && (v =? k) && lx_eqb l c1 p1 r1 | x => st =? status_of x end
+  else if which =? 2 then
+    match run_url t with Ok (k, l) => (st =? 0) && (v =? k) && lx_eqb l c1 p1 r1 | x => st =? status_of x end
+  else
+    match run_name t with Ok (o, l) => (st =? 0) && zlist_eqb o name && lx_eqb l c1 p1 r1 | x => st =? status_of x end.
+Definition check_csslex := mismatches csslex_ok.
